@@ -128,15 +128,20 @@ def leaf(rng, n: int, kind: str | None = None, depth: int = 0) -> Node:  # noqa:
     if kind == "inv_tri":
         lower = bool(rng.integers(0, 2))
         t = _tri(rng, n, lower)
-        arr = c(t)
-        return Node(mm.InverseTriangularMatrix(arr, lower=lower), np.linalg.inv(t), [kind, n, lower], inv=True,
+        masked = bool(rng.integers(0, 2))  # full array handed over: the documented contract is that the other triangle is ignored
+        full = t + (np.triu(rng.standard_normal((n, n)), 1) if lower else np.tril(rng.standard_normal((n, n)), -1)) if masked else t
+        arr = c(full)
+        return Node(mm.InverseTriangularMatrix(arr, lower=lower), np.linalg.inv(t), [kind, n, lower, "masked" if masked else "exact"], inv=True,
                     supplied=[arr])
     if kind in ("tri_fact_pd", "tri_fact_def"):
         lower = bool(rng.integers(0, 2))
         t = _tri(rng, n, lower)
         sign = 1 if kind == "tri_fact_pd" else int(rng.choice([-1, 1]))
         how = int(rng.integers(0, 3))
-        arr = c(t)
+        if rng.integers(0, 2):  # arbitrary data in the unused triangle of the supplied array
+            arr = c(t + (np.triu(rng.standard_normal((n, n)), 1) if lower else np.tril(rng.standard_normal((n, n)), -1)))
+        else:
+            arr = c(t)
         if how == 0:
             fac, fd, sup = arr, t, [arr]
             kw = {"factor_is_lower": lower}
